@@ -9,4 +9,7 @@ GO=/root/go/pkg/mod/golang.org/toolchain@v0.0.1-go1.25.8.linux-amd64/bin/go
 export GOTOOLCHAIN=local GOFLAGS=-mod=mod GOPROXY=off GOSUMDB=off
 "$GO" build -tags verif ./core/... ./cborx/... ./corpus/... || exit 1
 "$GO" build -tags verif github.com/blinklabs-io/gouroboros/... || exit 1
+# warm the -race variant too (used by the monitors that start library goroutines)
+"$GO" build -race -tags verif github.com/blinklabs-io/gouroboros/... ./core/... ./netsim/... ./rawpeer/... ./protorig/... || exit 1
+"$GO" build -tags verif ./ledgergen/... ./blockx/... ./specfsm/... || exit 1
 echo setup ok
